@@ -16,7 +16,7 @@ ASSUMPTIONS = ["bond graph = written bonds + constraints + bond edges of the app
 CASE_TIMEOUT = 60
 WALL = {"quick": 900, "thorough": 7200}
 REQUIRED = {"pairs_checked": 20000, "mixed_cases": 150, "uniform_cases": 150, "generated_exclusions_seen": 200,
-            "explicit_block_exclusions": 20, "three_level_cases": 80, "explicit_atom_id_links": 60, "library_cases": 100}
+            "explicit_block_exclusions": 20, "three_level_cases": 80, "explicit_atom_id_links": 60, "library_cases": 100, "multi_partner_exclusion_rows": 100, "cases_with_removed_atoms": 30}
 
 
 def plan(tier, seed):
@@ -33,6 +33,7 @@ def run_case(cid, rng, workdir):
     if cid[0] == "library":
         return run_library(cid, rng, workdir, res)
     case = paramcase.build(rng, profile="sensible", nmin=2, nmax=7, max_links=4, three_levels=True, p_uniform=0.3,
+                           link_opts={"p_remove": 0.1},
                            p_explicit=0.25, layouts=["ff", "ff", "ff+itp", "itp+ff", "itp_dangling"])
     # explicit exclusions inside .ff blocks (pure .ff layouts only: an .itp finalisation would turn them into edges)
     if case["layout"] == "ff" and rng.random() < 0.4:
@@ -83,6 +84,8 @@ def judge(case, ev, res):
     bump(res, "explicit_block_exclusions", explicit)
     bump(res, "generated_exclusions_seen", max(0, len(obs["excl_pairs"]) - explicit))
     bump(res, "explicit_atom_id_links", ref["stats"].get("explicit_links", 0))
+    bump(res, "multi_partner_exclusion_rows", case["descr"].get("multi_partner_exclusion_rows", 0))
+    bump(res, "cases_with_removed_atoms", 1 if ref["removed"] else 0)
     if len(used) >= 3:
         bump(res, "three_level_cases")
     note(res, "nrexcl_sets", used)
@@ -101,8 +104,12 @@ def _add_block_exclusions(rng, case):
     from ..gen import ff as FF
     for b in case["spec"]["blocks"]:
         if b["syntax"] == "ff" and len(b["atoms"]) >= 3 and rng.random() < 0.6:
-            x, y = rng.sample(range(len(b["atoms"])), 2)
-            b["inter"].append({"sec": "exclusions", "atoms": [x, y], "params": [], "meta": {}})
+            # one atom excluded from one, two or three others (a row 'B1 B4 B5 B6' excludes B1 from each of them,
+            # not the others from one another)
+            k = rng.randint(2, min(4, len(b["atoms"])))
+            b["inter"].append({"sec": "exclusions", "atoms": rng.sample(range(len(b["atoms"])), k), "params": [], "meta": {}})
+            if k > 2:
+                case["descr"]["multi_partner_exclusion_rows"] = case["descr"].get("multi_partner_exclusion_rows", 0) + 1
     blocks = case["spec"]["blocks"]
     case["files"] = [("case.ff", "\n".join(FF.render_blocks_ff(blocks) + FF.render_links_ff(case["ff_links"])) + "\n" +
                       case.get("ff_extra", ""))]
